@@ -8,6 +8,7 @@ mod common;
 mod e1;
 mod e2;
 mod e3;
+mod e3b;
 mod e4;
 mod e5;
 mod e5b;
@@ -70,7 +71,7 @@ fn main() {
             let sh = match job.pass.split(':').next().unwrap() {
                 "e1" => e1::worker(&job),
                 "e2" => e2::worker(&job),
-                "e3" => e3::worker(&job),
+                "e3" => if job.pass == "e3:readfault" { e3b::worker(&job) } else { e3::worker(&job) },
                 "e4" => e4::worker(&job),
                 "e5" => e5::worker(&job),
                 "e6" => e6::worker(&job),
@@ -130,7 +131,7 @@ fn do_replay(prop: &str, file: &str) -> i32 {
     let viols = match engine {
         "seq" => e1::replay(prop, case),
         "crash" => e2::replay(prop, case),
-        "sched" => e3::replay(prop, case),
+        "sched" => if case["kind"] == "readfault" { e3b::replay(case) } else { e3::replay(prop, case) },
         "resp" => e4::replay(prop, case),
         "net" => e5::replay(prop, case),
         "vtime" => e6::replay(prop, case),
@@ -177,6 +178,7 @@ fn do_check(prop: &str, tier: Tier, seed: u64) -> i32 {
         "C03" => vec!["e2:crash".into()],
         "C09" => vec!["e2:power".into()],
         "C20" => vec!["e2:fault".into()],
+        "C04" => vec!["e3".into(), "e3:readfault".into()],
         _ => vec![eng.to_string()],
     };
     for pass in &passes {
